@@ -813,6 +813,130 @@ def canon(text):
     return re.sub(r"\s+", "", text)
 
 
+
+# --------------------------------------------------------------------------- N12: new helper functions are inlined
+_HELPERS = None
+
+
+def _split_top(msk, src, lo, hi):
+    """split src[lo:hi] at commas of bracket depth 0 (judged on the masked text)."""
+    parts, depth, st = [], 0, lo
+    for k in range(lo, hi):
+        ch = msk[k]
+        if ch in "([{":
+            depth += 1
+        elif ch in ")]}":
+            depth -= 1
+        elif ch == "," and depth == 0:
+            parts.append(src[st:k])
+            st = k + 1
+    if src[st:hi].strip():
+        parts.append(src[st:hi])
+    return [p_.strip() for p_ in parts]
+
+
+def new_helpers():
+    """free functions of /repo/src that do NOT exist on the pinned tree (contracts/baseline.json: src_fns) and that can be
+    inlined by the language definition: no generics, no `self`, no `return` / `?` (the body is one block expression), not
+    recursive, plain `name: Type` parameters.  name -> dict(params, ret, body, file, line)"""
+    global _HELPERS
+    if _HELPERS is not None:
+        return _HELPERS
+    _HELPERS = {}
+    bpath = os.path.join(ROOT, "contracts", "baseline.json")
+    try:
+        import json as _json
+        known = _json.load(open(bpath)).get("src_fns")
+    except (OSError, ValueError):
+        known = None
+    if not known:
+        return _HELPERS
+    known_names = {n for v in known.values() for n in v}
+    srcdir = os.path.join(REPO, "src")
+    for fn_ in sorted(os.listdir(srcdir)):
+        if not fn_.endswith(".rs"):
+            continue
+        src = open(os.path.join(srcdir, fn_)).read()
+        msk = rustlex.mask(src)
+        for m in re.finditer(r"(?m)^(?:pub(?:\([a-z]+\))? )?fn\s+(\w+)\s*\(", msk):
+            name = m.group(1)
+            if name in known_names:
+                continue
+            po = m.end() - 1
+            pc = rustlex.match_brace(msk, po)
+            ob = msk.find("{", pc)
+            semi = msk.find(";", pc)
+            if ob < 0 or (0 <= semi < ob):
+                continue
+            cb = rustlex.match_brace(msk, ob)
+            head = src[pc + 1:ob].strip()
+            ret = None
+            if head.startswith("->"):
+                ret = head[2:].strip()
+            elif head:
+                continue   # where clauses etc.
+            body, bmsk = src[ob + 1:cb], msk[ob + 1:cb]
+            if re.search(r"\breturn\b", bmsk) or "?" in bmsk or re.search(r"\b%s\b" % re.escape(name), bmsk):
+                continue
+            params, ok = [], True
+            for p_ in _split_top(msk, src, po + 1, pc):
+                pm = re.match(r"(mut\s+)?(\w+)\s*:\s*(.+)$", p_, re.S)
+                if not pm or pm.group(2) == "self" or re.search(r"'\w", pm.group(3)) or "impl " in pm.group(3):
+                    ok = False
+                    break
+                params.append((bool(pm.group(1)), pm.group(2), " ".join(pm.group(3).split())))
+            if not ok:
+                continue
+            _HELPERS[name] = {"params": params, "ret": ret, "body": body.strip("\n"), "file": "src/" + fn_,
+                              "line": rustlex.line_of(src, m.start())}
+    return _HELPERS
+
+
+def inline_new_helpers(text, report):
+    """every call `h(args)` of such a function is replaced by the block `{ let h__a_i = arg_i; let p_i: T_i = h__a_i; body }`:
+    arguments evaluated first and in order, then bound to the parameters, then the body - the meaning of the call."""
+    helpers = new_helpers()
+    if not helpers:
+        return text
+    for _round in range(4):
+        changed = False
+        for name, h in helpers.items():
+            while True:
+                msk = rustlex.mask(text)
+                hit = None
+                for m in re.finditer(r"(?<![\w.:])%s\s*\(" % re.escape(name), msk):
+                    if re.search(r"\bfn\s+$", msk[:m.start()]):
+                        continue
+                    hit = m
+                    break
+                if hit is None:
+                    break
+                po = hit.end() - 1
+                pc = rustlex.match_brace(msk, po)
+                args = _split_top(msk, text, po + 1, pc)
+                if len(args) != len(h["params"]):
+                    raise Undecided("call of new helper `%s` with %d arguments (it takes %d)" % (name, len(args), len(h["params"])))
+                ls = text.rfind("\n", 0, hit.start()) + 1
+                ind = re.match(r"[ \t]*", text[ls:]).group(0) + "    "
+                lines = ["{"]
+                lines += ["%slet h__a%d = %s;" % (ind, i_, a_) for i_, a_ in enumerate(args)]
+                lines += ["%slet %s%s: %s = h__a%d;" % (ind, "mut " if mut_ else "", pn_, ty_, i_) for i_, (mut_, pn_, ty_) in enumerate(h["params"])]
+                body = "\n".join((ind + l) if l.strip() else l for l in dedent(h["body"]).split("\n"))
+                if h["ret"]:
+                    lines += ["%slet h__r: %s = {" % (ind, h["ret"]), body, ind + "};", ind + "h__r"]
+                else:
+                    lines += [body]
+                lines += [ind[:-4] + "}"]
+                text = text[:hit.start()] + "\n".join(lines) + text[pc + 1:]
+                changed = True
+                _bump(report, "N12 call of a new helper function replaced by its body (arguments bound to the parameters first)")
+                ih = report.setdefault("inlined_helpers", [])
+                if not any(x_["name"] == name for x_ in ih):
+                    ih.append({"name": name, "defined": "%s:%d" % (h["file"], h["line"])})
+        if not changed:
+            break
+    return text
+
 # --------------------------------------------------------------------------- build
 def extract_item(srcfile, header_re, nth):
     path = os.path.join(REPO, "src", srcfile)
@@ -851,6 +975,7 @@ def build_unit(unit, outdir, ghost_override=None, variant=None):
                 if tail == "-":
                     tail = ""   # the block is a statement list; the function returns ()
                 whole, f0, _f1 = extract_item(srcfile, hdr, 0)
+                whole = inline_new_helpers(whole, report)
                 wl = whole.split("\n")
                 # `<last line> +N`: N more lines after the anchor line (closing braces of a tail expression)
                 more = 0
@@ -928,7 +1053,7 @@ def build_unit(unit, outdir, ghost_override=None, variant=None):
                 if m:
                     nth, hdr = int(m.group(1)), m.group(2)
                 raw, l0, l1 = extract_item(srcfile, hdr.strip(), nth)
-            text = dedent(raw)
+            text = inline_new_helpers(dedent(raw), report)
             for nfn in NORMALISATIONS:
                 text = nfn(text, report["normalisations"])
             # method-scoped ghost sections: label::method
